@@ -70,7 +70,15 @@ fn main() -> Result<(), String> {
 
     // TODO: should introduce a config object to gather options on the CLI etc.
     let max_drift_ppb = match args.max_drift_rate {
-        Some(rate) => rate * 1000,
+        // The rate is published in parts per billion in a 32-bit field. Refuse a value that cannot
+        // be represented rather than wrapping into a smaller rate.
+        Some(rate) => rate.checked_mul(1000).ok_or_else(|| {
+            format!(
+                "max drift rate of {} ppm is too large, the maximum is {} ppm",
+                rate,
+                u32::MAX / 1000
+            )
+        })?,
         None => {
             warn!("Using the default max drift rate of 1PPM, which is likely wrong. \
                   Update chrony configuration and clockbound to a value that matches your hardware.");
